@@ -45,6 +45,28 @@ theorem chain_only_from_source (pa pb : FState) (ops : List Chain.Op) :
     s.bEnv = false → s.b = none ∨ s.b = s.a :=
   fun h => (Chain.inv_run ops _ (Chain.inv_init pa pb)).src h
 
+/-! #### source is a `concurrent.futures.Future` (`Chain.initCF`: no inline copy for an already-done source) -/
+
+/-- the same guarantee when the source is a concurrent future, pending or already done (any outcome, incl.
+    cancellation): source done ∧ loop idle ∧ nobody else settled `b` ⇒ `b` holds the source's outcome -/
+theorem chain_cf_copies (pa pb : FState) (ops : List Chain.Op) (o : Outcome) :
+    let s := Chain.run (Chain.initCF pa pb) ops
+    s.a = some o → s.ready = [] → s.bEnv = false → s.b = some (Spec.chain o) := by
+  cases pa with
+  | none => exact chain_copies none pb ops o
+  | some x => exact chain_copies none pb (.setA x :: ops) o
+
+example : (Chain.run (Chain.initCF (some .cancelled) none) []).b = none ∧
+    (Chain.run (Chain.initCF (some .cancelled) none) [.tick]).b = some .cancelled := by decide
+
+/-- … and is never left pending: source done and loop idle ⇒ destination done -/
+theorem chain_cf_never_pending (pa pb : FState) (ops : List Chain.Op) :
+    let s := Chain.run (Chain.initCF pa pb) ops
+    s.a ≠ none → s.ready = [] → s.b ≠ none := by
+  cases pa with
+  | none => exact chain_never_pending none pb ops
+  | some x => exact chain_never_pending none pb (.setA x :: ops)
+
 /-! ### multi -/
 
 /-- the computation `multi` performs when its last child reports: with every child done and the output still
@@ -128,6 +150,19 @@ theorem with_timeout_no_deadline (pa : FState) (ops : List Timeout.Op) (hnf : Ti
 
 example : Timeout.Op.fire ∉ [Timeout.Op.setA (.exc 3), .tick] ∧
     (Timeout.run (Timeout.init none) [.setA (.exc 3), .tick]).ready = [] := by decide
+
+/-- input is a `concurrent.futures.Future` (`Timeout.initCF`), pending or already done: before the deadline, once
+    the loop is idle the result is the input's state — never left pending once the input is done -/
+theorem with_timeout_cf_no_deadline (pa : FState) (ops : List Timeout.Op) (hnf : Timeout.Op.fire ∉ ops)
+    (hr : (Timeout.run (Timeout.initCF pa) ops).ready = []) :
+    (Timeout.run (Timeout.initCF pa) ops).res = Spec.timeout none (Timeout.run (Timeout.initCF pa) ops).a := by
+  cases pa with
+  | none => exact with_timeout_no_deadline none ops hnf hr
+  | some x =>
+    exact with_timeout_no_deadline none (.setA x :: ops) (by simp [hnf]) hr
+
+example : (Timeout.run (Timeout.initCF (some .cancelled)) [.tick]).ready = [] ∧
+    (Timeout.run (Timeout.initCF (some .cancelled)) [.tick]).res = some .cancelled := by decide
 
 /-! ### WaitIterator -/
 
